@@ -236,7 +236,10 @@ def glaisher_fixed(prec):
 
 @constant_memo
 def apery_fixed(prec):
-    prec += 20
+    # The truncation error of d is multiplied by 205 n^2 + 250 n + 77
+    # in each of the about prec/10 terms
+    extra = 20 + 3*bitcount(prec)
+    prec += extra
     d = MPZ_ONE << prec
     term = MPZ(77) << prec
     n = 1
@@ -247,7 +250,7 @@ def apery_fixed(prec):
         d //= (((2*n+1)**5) * (2*n)**5)
         term = (-1)**n * (205*(n**2) + 250*n + 77) * d
         n += 1
-    return s >> (20 + 6)
+    return s >> (extra + 6)
 
 """
 Euler's constant (gamma) is computed using the Brent-McMillan formula,
